@@ -311,11 +311,11 @@ Proof.
     all: try (destruct H8 as (A & l0 & B & C); split; [auto|exists l0; auto]; fail).
     destruct H8 as (A & B & C & l1 & l2 & D & E & F & G & H & J). repeat split; auto.
     exists l1, l2. repeat split; auto.
-  - destruct p; cbn [hold_ok] in *; auto;
+  - clear Hfr. destruct p; cbn [hold_ok] in *; auto; unfold fresh_node in *;
       rewrite ?EL, ?EI, ?En, ?Eb, ?Ed, ?Ep, ?(sa_lo _ _ S), ?(sa_hi _ _ S), ?(sa_gnode _ _ S).
     all: repeat match goal with H : _ /\ _ |- _ => destruct H | H : exists _, _ |- _ => destruct H end.
     all: repeat (first [split | eexists]); eauto.
-    apply (sa_alloc _ _ S); auto.
+    all: try (apply (sa_alloc _ _ S); auto).
   - rewrite EL, (sa_mlog _ _ S). exact H10.
 Qed.
 
@@ -325,4 +325,153 @@ Proof.
   - intros c Hc. eapply pubn_sameA; eauto.
   - intros z Hz. apply (sa_isrec _ _ S). auto.
   - intros w z Hz. apply (sa_isrec _ _ S). eauto.
+Qed.
+
+(* ---------- primitive updates that Layer A does not see ---------- *)
+Lemma sameA_fault g x : sameA g x -> sameA g (with_fault x).
+Proof. intros [A1 A2 A3 A4 A5 A6 A7 A8 A9 A10]. constructor; auto. Qed.
+Lemma sameA_misuse g x : sameA g x -> sameA g (with_misuse x).
+Proof. intros [A1 A2 A3 A4 A5 A6 A7 A8 A9 A10]. constructor; auto. Qed.
+Lemma sameA_zhead g x z : sameA g x -> sameA g (with_zhead x z).
+Proof. intros [A1 A2 A3 A4 A5 A6 A7 A8 A9 A10]. constructor; auto. Qed.
+Lemma sameA_zlog g x z : sameA g x -> sameA g (with_zlog x z).
+Proof. intros [A1 A2 A3 A4 A5 A6 A7 A8 A9 A10]. constructor; auto. Qed.
+Lemma sameA_mtx g x z : sameA g x -> sameA g (with_mtx x z).
+Proof. intros [A1 A2 A3 A4 A5 A6 A7 A8 A9 A10]. constructor; auto. Qed.
+Lemma sameA_chk g x ok k : sameA g x -> sameA g (fst (chk ok k x)).
+Proof. intros H. destruct ok; cbn; [exact H|apply sameA_fault; exact H]. Qed.
+
+Lemma sameA_alloc_rec g r : sameA g (fst (do_alloc g (BRec r))).
+Proof.
+  constructor; try reflexivity.
+  - intros k. apply gnode_alloc_rec.
+  - intros k. rewrite isnode_alloc. destruct (Nat.eqb_spec k (nheap g)) as [->|]; [|reflexivity].
+    unfold isnode. rewrite getc_ge by lia. reflexivity.
+  - intros k H. rewrite isrec_alloc. destruct (Nat.eqb k (nheap g)); auto.
+  - intros k Hk Hc. rewrite cs_of_alloc. destruct (Nat.eqb k (nheap g)); auto.
+Qed.
+Lemma sameA_setz g z r : isrec g z = true -> sameA g (setz g z r).
+Proof.
+  intros H. destruct (modc_fields g z (set_body (BRec r))) as (F1 & F2 & F3 & F4 & F5 & F6 & F7 & F8 & F9 & F10 & F11 & F12).
+  constructor; auto.
+  - intros k. apply gnode_setz. exact H.
+  - intros k. apply isnode_setz. exact H.
+  - intros k Hk. rewrite isrec_setz; auto.
+  - intros k Hk Hc. rewrite cs_of_setz. exact Hc.
+Qed.
+Lemma sameA_construct_rec g z r : isrec g z = true -> sameA g (fst (do_construct g z (BRec r))).
+Proof.
+  intros H. destruct (construct_fields g z (BRec r)) as (F1 & F2 & F3 & F4 & F5 & F6 & F7 & F8 & F9 & F10 & F11 & F12).
+  constructor; auto.
+  - intros k. apply gnode_construct_rec. exact H.
+  - intros k. apply isnode_construct_rec. exact H.
+  - intros k Hk. rewrite isrec_construct_rec; auto.
+  - intros k Hk Hc. rewrite cs_of_construct. destruct (Nat.eqb_spec k z) as [->|]; [|exact Hc].
+    rewrite (isrec_isnode _ _ H) in Hk. discriminate.
+Qed.
+Lemma sameA_destroy g k : sameA g (fst (do_destroy g k)).
+Proof.
+  destruct (destroy_fields g k) as (F1 & F2 & F3 & F4 & F5 & F6 & F7 & F8 & F9 & F10 & F11 & F12).
+  constructor; auto.
+  - intros j. apply gnode_destroy.
+  - intros j. apply isnode_destroy.
+  - intros j Hj. rewrite isrec_destroy. exact Hj.
+  - intros j Hj Hc. rewrite cs_of_destroy. destruct (Nat.eqb_spec j k) as [->|]; [rewrite Hc; reflexivity|exact Hc].
+Qed.
+Lemma sameA_dealloc g k : sameA g (fst (do_dealloc g k)).
+Proof.
+  destruct (dealloc_fields g k) as (F1 & F2 & F3 & F4 & F5 & F6 & F7 & F8 & F9 & F10 & F11 & F12).
+  constructor; auto.
+  - intros j. apply gnode_dealloc.
+  - intros j. apply isnode_dealloc.
+  - intros j Hj. rewrite isrec_dealloc. exact Hj.
+  - intros j Hj Hc. rewrite cs_of_dealloc. destruct (Nat.eqb_spec j k) as [->|]; [rewrite Hc; reflexivity|exact Hc].
+Qed.
+Lemma sameA_null g kind : sameA g (fst (null_call g kind)).
+Proof. cbn. apply sameA_fault, sameA_refl. Qed.
+
+(* ---------- monotone facts other threads rely on ---------- *)
+Definition mono (g g' : glob) : Prop :=
+  (forall k, pubn g k -> pubn g' k) /\ (forall k, isrec g k = true -> isrec g' k = true).
+Lemma thr_ok_mono g g' l : mono g g' -> thr_ok g l -> thr_ok g' l.
+Proof. intros [M1 M2] [T1 T2 T3 T4]. constructor; eauto. Qed.
+Lemma mono_sameA g g' : sameA g g' -> mono g g'.
+Proof. intros S. split; [intros k; apply pubn_sameA; exact S|apply (sa_isrec _ _ S)]. Qed.
+
+(* ---------- iterators ---------- *)
+Lemma getit_In l i c : getit l i = Some (Some c) -> In c (its_refs l).
+Proof.
+  induction l as [|[j x] r IH]; cbn; [discriminate|].
+  destruct (Nat.eqb i j).
+  - intros E. inversion E; subst. cbn. auto.
+  - intros E. apply in_or_app. right. apply IH. exact E.
+Qed.
+Lemma its_refs_filter f l c : In c (its_refs (filter f l)) -> In c (its_refs l).
+Proof.
+  induction l as [|[j x] r IH]; cbn; [auto|]. destruct (f (j, x)); cbn; intros H.
+  - apply in_app_or in H. apply in_or_app. destruct H; [left; exact H|right; apply IH; exact H].
+  - apply in_or_app. right. apply IH. exact H.
+Qed.
+Lemma its_refs_setit l i x c : In c (its_refs (setit l i x)) -> x = Some c \/ In c (its_refs l).
+Proof.
+  unfold setit. cbn. intros H. apply in_app_or in H. destruct H as [H|H].
+  - left. destruct x; cbn in H; [destruct H as [->|[]]; reflexivity|contradiction].
+  - right. eapply its_refs_filter. exact H.
+Qed.
+
+(* ---------- node field writes ---------- *)
+Record nviews (g g' : glob) : Prop := {
+  nv_isnode : forall j, isnode g' j = isnode g j;
+  nv_isrec : forall j, isrec g' j = isrec g j;
+  nv_cs : forall j, cs_of g' j = cs_of g j;
+  nv_head : head g' = head g; nv_tail : tail g' = tail g; nv_lst : lst g' = lst g; nv_mlog : mlog g' = mlog g;
+  nv_lo : lo g' = lo g; nv_hi : hi g' = hi g; nv_mtx : wmtx g' = wmtx g
+}.
+Lemma nviews_setn g k n : isnode g k = true -> nviews g (setn g k n).
+Proof.
+  intros H. destruct (modc_fields g k (set_body (BNode n))) as (F1 & F2 & F3 & F4 & F5 & F6 & F7 & F8 & F9 & F10 & F11 & F12).
+  constructor; auto.
+  - intros j. apply isnode_setn. exact H.
+  - intros j. apply isrec_setn. exact H.
+  - intros j. apply cs_of_setn.
+Qed.
+Lemma set_next_views g k x : isnode g k = true ->
+  let g' := setn g k (n_next (gnode g k) x) in
+  (forall j, nx g' j = if Nat.eqb j k then x else nx g j) /\ (forall j, bk g' j = bk g j) /\
+  (forall j, dl g' j = dl g j) /\ (forall j, ps g' j = ps g j).
+Proof.
+  intros H g'. pose proof (isnode_lt _ _ H) as Hlt. unfold nx, bk, dl, ps, g'.
+  repeat split; intros j; rewrite (gnode_setn _ _ _ _ Hlt); destruct (Nat.eqb_spec j k) as [->|]; reflexivity.
+Qed.
+Lemma set_back_views g k x : isnode g k = true ->
+  let g' := setn g k (n_back (gnode g k) x) in
+  (forall j, nx g' j = nx g j) /\ (forall j, bk g' j = if Nat.eqb j k then x else bk g j) /\
+  (forall j, dl g' j = dl g j) /\ (forall j, ps g' j = ps g j).
+Proof.
+  intros H g'. pose proof (isnode_lt _ _ H) as Hlt. unfold nx, bk, dl, ps, g'.
+  repeat split; intros j; rewrite (gnode_setn _ _ _ _ Hlt); destruct (Nat.eqb_spec j k) as [->|]; reflexivity.
+Qed.
+Lemma set_del_views g k : isnode g k = true ->
+  let g' := setn g k (n_del (gnode g k)) in
+  (forall j, nx g' j = nx g j) /\ (forall j, bk g' j = bk g j) /\
+  (forall j, dl g' j = if Nat.eqb j k then true else dl g j) /\ (forall j, ps g' j = ps g j).
+Proof.
+  intros H g'. pose proof (isnode_lt _ _ H) as Hlt. unfold nx, bk, dl, ps, g'.
+  repeat split; intros j; rewrite (gnode_setn _ _ _ _ Hlt); destruct (Nat.eqb_spec j k) as [->|]; reflexivity.
+Qed.
+
+Lemma fold_apply_app l m : fold_left apply_m (l ++ [m]) [] = apply_m (fold_left apply_m l []) m.
+Proof. rewrite fold_left_app. reflexivity. Qed.
+
+Lemma hd_opt_In l a : hd_opt l = Some a -> exists r, l = a :: r.
+Proof. destruct l; cbn; intros E; [discriminate|]. inversion E. eauto. Qed.
+Lemma last_opt_cons_or a l : last_opt (a :: l) = last_or l (Some a).
+Proof. unfold last_or. destruct l; [reflexivity|]. change (last_opt (a :: n :: l)) with (last_opt (n :: l)).
+  destruct (last_opt (n :: l)) eqn:E; [reflexivity|]. apply last_opt_none in E. discriminate. Qed.
+Lemma NoDup_app_l {A} (a b : list A) : NoDup (a ++ b) -> NoDup a.
+Proof. induction a; cbn; intros H; [constructor|]. inversion H; subst. constructor; [intros Hi; apply H2; apply in_or_app; auto|auto]. Qed.
+Lemma NoDup_mid {A} (a : list A) x b : NoDup (a ++ x :: b) -> ~ In x a /\ ~ In x b /\ NoDup (a ++ b).
+Proof.
+  intros H. pose proof (NoDup_remove_1 _ _ _ H). pose proof (NoDup_remove_2 _ _ _ H) as H2.
+  repeat split; auto; intros Hi; apply H2; apply in_or_app; auto.
 Qed.
